@@ -56,26 +56,26 @@ struct Run {
 		unsigned char b[16] = {0}; std::memcpy(b, &mant, 8); b[8] = se & 0xff; b[9] = (se >> 8) & 0xff;
 		long double x; std::memcpy(&x, b, sizeof x); return x;
 	}
-	static void from_f64(double d) { if (!g_from) return; P p; p = d; std::printf("posit %u %u fromf64 %llx => %llx\n", nbits, es, (unsigned long long)uv::double2bits(d), (unsigned long long)enc(p)); }
-	static void from_f32(float f) { if (!g_from) return; P p; p = f; std::printf("posit %u %u fromf32 %x => %llx\n", nbits, es, uv::float2bits(f), (unsigned long long)enc(p)); }
+	static void from_f64(double d) { if (!g_from) return; P p; p.setbits(0xa5a5a5a5a5a5a5a5ull & uv::mask(nbits)); p = d; std::printf("posit %u %u fromf64 %llx => %llx\n", nbits, es, (unsigned long long)uv::double2bits(d), (unsigned long long)enc(p)); }
+	static void from_f32(float f) { if (!g_from) return; P p; p.setbits(0xa5a5a5a5a5a5a5a5ull & uv::mask(nbits)); p = f; std::printf("posit %u %u fromf32 %x => %llx\n", nbits, es, uv::float2bits(f), (unsigned long long)enc(p)); }
 	static void from_ld(long double x) {
 		if (!g_from) return;
 		unsigned se; uint64_t m; ld_parts(x, se, m);
 		if ((se & 0x7fff) != 0 && !(m >> 63)) return;        // unnormal patterns are not valid x87 values
-		P p; p = x; std::printf("posit %u %u fromld %x %llx => %llx\n", nbits, es, se, (unsigned long long)m, (unsigned long long)enc(p));
+		P p; p.setbits(0xa5a5a5a5a5a5a5a5ull & uv::mask(nbits)); p = x; std::printf("posit %u %u fromld %x %llx => %llx\n", nbits, es, se, (unsigned long long)m, (unsigned long long)enc(p));
 	}
 	static void from_int(uint64_t w) {
 		if (!g_from) return;
 		unsigned long long W = w;
-		{ P p; p = (signed char)W;        std::printf("posit %u %u fromi i8 %llx => %llx\n", nbits, es, W, (unsigned long long)enc(p)); }
-		{ P p; p = (short)W;              std::printf("posit %u %u fromi i16 %llx => %llx\n", nbits, es, W, (unsigned long long)enc(p)); }
-		{ P p; p = (int)W;                std::printf("posit %u %u fromi i32 %llx => %llx\n", nbits, es, W, (unsigned long long)enc(p)); }
-		{ P p; p = (long)W;               std::printf("posit %u %u fromi l64 %llx => %llx\n", nbits, es, W, (unsigned long long)enc(p)); }
-		{ P p; p = (long long)W;          std::printf("posit %u %u fromi i64 %llx => %llx\n", nbits, es, W, (unsigned long long)enc(p)); }
-		{ P p; p = (unsigned long)W;      std::printf("posit %u %u fromi ul64 %llx => %llx\n", nbits, es, W, (unsigned long long)enc(p)); }
-		{ P p; p = (unsigned short)W;     std::printf("posit %u %u fromi u16 %llx => %llx\n", nbits, es, W, (unsigned long long)enc(p)); }
-		{ P p; p = (unsigned int)W;       std::printf("posit %u %u fromi u32 %llx => %llx\n", nbits, es, W, (unsigned long long)enc(p)); }
-		{ P p; p = (unsigned long long)W; std::printf("posit %u %u fromi u64 %llx => %llx\n", nbits, es, W, (unsigned long long)enc(p)); }
+		{ P p; p.setbits(0x5a5a5a5a5a5a5a5aull & uv::mask(nbits)); p = (signed char)W;        std::printf("posit %u %u fromi i8 %llx => %llx\n", nbits, es, W, (unsigned long long)enc(p)); }
+		{ P p; p.setbits(0x5a5a5a5a5a5a5a5aull & uv::mask(nbits)); p = (short)W;              std::printf("posit %u %u fromi i16 %llx => %llx\n", nbits, es, W, (unsigned long long)enc(p)); }
+		{ P p; p.setbits(0x5a5a5a5a5a5a5a5aull & uv::mask(nbits)); p = (int)W;                std::printf("posit %u %u fromi i32 %llx => %llx\n", nbits, es, W, (unsigned long long)enc(p)); }
+		{ P p; p.setbits(0x5a5a5a5a5a5a5a5aull & uv::mask(nbits)); p = (long)W;               std::printf("posit %u %u fromi l64 %llx => %llx\n", nbits, es, W, (unsigned long long)enc(p)); }
+		{ P p; p.setbits(0x5a5a5a5a5a5a5a5aull & uv::mask(nbits)); p = (long long)W;          std::printf("posit %u %u fromi i64 %llx => %llx\n", nbits, es, W, (unsigned long long)enc(p)); }
+		{ P p; p.setbits(0x5a5a5a5a5a5a5a5aull & uv::mask(nbits)); p = (unsigned long)W;      std::printf("posit %u %u fromi ul64 %llx => %llx\n", nbits, es, W, (unsigned long long)enc(p)); }
+		{ P p; p.setbits(0x5a5a5a5a5a5a5a5aull & uv::mask(nbits)); p = (unsigned short)W;     std::printf("posit %u %u fromi u16 %llx => %llx\n", nbits, es, W, (unsigned long long)enc(p)); }
+		{ P p; p.setbits(0x5a5a5a5a5a5a5a5aull & uv::mask(nbits)); p = (unsigned int)W;       std::printf("posit %u %u fromi u32 %llx => %llx\n", nbits, es, W, (unsigned long long)enc(p)); }
+		{ P p; p.setbits(0x5a5a5a5a5a5a5a5aull & uv::mask(nbits)); p = (unsigned long long)W; std::printf("posit %u %u fromi u64 %llx => %llx\n", nbits, es, W, (unsigned long long)enc(p)); }
 	}
 	static constexpr unsigned fbits_ = (es + 2 >= nbits ? 0 : nbits - 3 - es);
 	static constexpr long maxscale_ = long(nbits - 2) * (1l << es);
@@ -222,7 +222,7 @@ struct Run {
 		}
 	}
 	// operand pairs whose exact product / quotient / sum is an (n+1)-bit midpoint (a tie) or one ulp of an operand away from it
-	static bool exact_ld(long double v, uint64_t& e) { P p; p = v; if ((long double)p != v || p.isnar() || p.iszero()) return false; e = enc(p); return true; }
+	static bool exact_ld(long double v, uint64_t& e) { P p; p.setbits(0x5a5a5a5a5a5a5a5aull & uv::mask(nbits)); p = v; if ((long double)p != v || p.isnar() || p.iszero()) return false; e = enc(p); return true; }
 	static void ties(uv::Rng& g) {
 		if constexpr (nbits < 64 && fbits_ + 2 <= 63 && maxscale_ <= 8000) {
 			posit<nbits + 1, es> mid; mid.setbits(((g.next() << 1) | 1) & uv::mask(nbits + 1));
